@@ -13,8 +13,10 @@
 
    Text is a sequence of character codes (naturals):
      0 blank   1 horizontal rule   2 vertical rule   3 corner / crossing   4 '=' (borderless header rule)
-     9 any other character        >= 100: character of a cell; the cell's number is  code \div 100
-   Cells are numbered row-major from 1 (the header row, when present, is row 1).                             *)
+     9 any other character        >= 100: character of a cell text; code \div 100 is the *class* of the text
+   All characters of one cell have the same class; cells of the same class carry the identical text (a value
+   repeated in several rows or columns); the classes of different texts differ.  In the enumerated families the
+   class is the number of the first cell (row-major from 1, header row first) that carries the text.          *)
 EXTENDS Integers, Sequences, FiniteSets, SequencesExt, FiniteSetsExt, TLC
 
 CONSTANT Repaired
@@ -216,44 +218,76 @@ Step == ClassifyPass \/ (\E up \in {0, 1} : Distribute(up)) \/ Draw
 \* precondition: the terminal leaves at least one character per column beside borders, padding and indentation
 Pre(i) == Avail(i) >= i.n
 
-NCells(i) == NRows(i) * i.n
-CellText(i, c) == i.rows[(c - 1) \div i.n + 1][((c - 1) % i.n) + 1]
-ColOfCell(i, c) == ((c - 1) % i.n) + 1
+\* the class of a cell's text (0: empty cell), the classes of a table, the columns a class occurs in
+ClassOfText(t) == LET ns == NonSpace(t) IN IF ns = <<>> THEN 0 ELSE CellOf(ns[1])
+ClassAt(i, r, k) == ClassOfText(i.rows[r][k])
+\* computed once per table: cl[r][k] class of the cell, set the classes, cols[g] the columns class g occurs in
+ClassInfo(i) ==
+  LET cl == [r \in 1..NRows(i) |-> [k \in 1..i.n |-> ClassAt(i, r, k)]]
+      set == {cl[r][k] : r \in 1..NRows(i), k \in 1..i.n} \ {0}
+  IN [cl |-> cl, set |-> set, cols |-> [g \in set |-> {k \in 1..i.n : \E r \in 1..NRows(i) : cl[r][k] = g}]]
+Classes(i) == ClassInfo(i).set
 
 \* no line is wider than the terminal
 Fits(i, L) == \A j \in 1..Len(L) : Len(L[j]) <= i.T
 \* all lines equally wide; styles without a right-hand rule end in blanks, which the output may omit
 Rectangle(i, L) == Boxed(i.style) => \A j, k \in 1..Len(L) : Len(L[j]) = Len(L[k])
 
-\* reading the output top to bottom, the characters of cell c are the cell's characters in order, blanks aside
-CellRead(L, c) == FoldLeft(LAMBDA acc, ln : IF \E p \in 1..Len(ln) : CellOf(ln[p]) = c
-                                            THEN acc \o SelectSeq(ln, LAMBDA x : CellOf(x) = c) ELSE acc, <<>>, L)
-KeptCell(i, L, c) == CellRead(L, c) = NonSpace(CellText(i, c))
-BadCells(i, L) == {c \in 1..NCells(i) : ~KeptCell(i, L, c)}
-\* ... and nothing but cell text, rules and blanks is drawn
+\* vertical rules of a line
+Seps(ln) == SelectSeq([p \in 1..Len(ln) |-> IF ln[p] = VR THEN p ELSE 0], LAMBDA x : x # 0)
+
+\* reading column k top to bottom gives the text of its cells of class g, row after row, blanks aside
+Expected(i, ci, g, k) == Cat([r \in 1..NRows(i) |-> IF ci.cl[r][k] = g THEN NonSpace(i.rows[r][k]) ELSE <<>>])
+\* - a class living in one column: all its characters, wherever they are drawn
+ReadAll(L, g) == FoldLeft(LAMBDA acc, ln : IF \E p \in 1..Len(ln) : CellOf(ln[p]) = g
+                                           THEN acc \o SelectSeq(ln, LAMBDA x : CellOf(x) = g) ELSE acc, <<>>, L)
+\* - a text repeated in several columns, boxed styles: its characters between the rules of column k
+ReadCol(L, g, k) ==
+  FoldLeft(LAMBDA acc, ln : LET sp == Seps(ln)
+                            IN IF Len(sp) >= k + 1
+                               THEN acc \o SelectSeq(SubSeq(ln, sp[k] + 1, sp[k + 1] - 1), LAMBDA x : CellOf(x) = g)
+                               ELSE acc, <<>>, L)
+\* - a text repeated in several columns, styles without rules: columns cannot be told apart in the drawn text;
+\*   every character is drawn as often as the cells contain it
+CountIn(L, x) == Sum([j \in 1..Len(L) |-> Len(SelectSeq(L[j], LAMBDA y : y = x))])
+CountExp(i, x) == Sum([r \in 1..NRows(i) |-> Sum([k \in 1..i.n |-> Len(SelectSeq(i.rows[r][k], LAMBDA y : y = x))])])
 Chars(L) == UNION {{L[j][p] : p \in 1..Len(L[j])} : j \in 1..Len(L)}
-Extra(i, L) == {x \in Chars(L) : ~(x \in {SP, HR, VR, XR, EQ} \/ (IsCell(x) /\ CellOf(x) \in 1..NCells(i)))}
-TextKept(i, L) == Extra(i, L) = {} /\ BadCells(i, L) = {}
+KeptClass(i, ci, L, g) ==
+  LET cols == ci.cols[g]
+  IN IF Cardinality(cols) = 1 THEN ReadAll(L, g) = Expected(i, ci, g, CHOOSE k \in cols : TRUE)
+     ELSE IF Boxed(i.style) THEN \A k \in cols : ReadCol(L, g, k) = Expected(i, ci, g, k)
+     ELSE \A x \in {y \in Chars(L) \cup Chars(Cat([r \in 1..NRows(i) |-> i.rows[r]])) : IsCell(y) /\ CellOf(y) = g} :
+             CountIn(L, x) = CountExp(i, x)
+BadClasses(i, L) == LET ci == ClassInfo(i) IN {g \in ci.set : ~KeptClass(i, ci, L, g)}
+\* ... and nothing but cell text, rules and blanks is drawn
+Extra(i, L) == LET set == Classes(i) IN {x \in Chars(L) : ~(x \in {SP, HR, VR, XR, EQ} \/ (IsCell(x) /\ CellOf(x) \in set))}
+TextKept(i, L) == Extra(i, L) = {} /\ BadClasses(i, L) = {}
 
 \* every column has the same extent in every row:
-\*  (a) the text of column k stays inside one vertical band, and the bands of different columns do not overlap
-ColPos(i, L, k) ==
-  UNION {{p \in 1..Len(L[j]) : IsCell(L[j][p]) /\ ColOfCell(i, CellOf(L[j][p])) = k} : j \in 1..Len(L)}
+\*  (a) the text of column k (texts that occur in this column only) stays inside one vertical band, and the bands
+\*      of different columns do not overlap
+ColPos(L, k, cm) ==
+  UNION {{p \in 1..Len(L[j]) : IsCell(L[j][p]) /\ (IF CellOf(L[j][p]) \in DOMAIN cm THEN cm[CellOf(L[j][p])] = k ELSE FALSE)}
+         : j \in 1..Len(L)}
 Bands(i, L) ==
-  LET pos == [k \in 1..i.n |-> ColPos(i, L, k)]
+  LET ci == ClassInfo(i)
+      cm == [g \in ci.set |-> IF Cardinality(ci.cols[g]) = 1 THEN CHOOSE k \in ci.cols[g] : TRUE ELSE 0]
+      pos == [k \in 1..i.n |-> ColPos(L, k, cm)]
   IN \A k1, k2 \in 1..i.n : (k1 < k2 /\ pos[k1] # {} /\ pos[k2] # {}) => Max(pos[k1]) < Min(pos[k2])
-\*  (b) with vertical rules: n+1 rules at the same offsets in every row line, each cell's text between its two rules
+\*  (b) with vertical rules: n+1 rules at the same offsets in every row line, every character of a cell text
+\*      between the two rules of a column that carries this text
 IsRowLine(ln) == \E p \in 1..Len(ln) : IsCell(ln[p]) \/ ln[p] = VR \/ ln[p] = UNK
-Seps(ln) == SelectSeq([p \in 1..Len(ln) |-> IF ln[p] = VR THEN p ELSE 0], LAMBDA x : x # 0)
 Rules(i, L) ==
   Boxed(i.style) =>
     LET rl == SelectSeq(L, IsRowLine)
+        ci == ClassInfo(i)
     IN \A j \in 1..Len(rl) :
          LET sp == Seps(rl[j])
          IN /\ Len(sp) = i.n + 1
             /\ sp = Seps(rl[1])
             /\ \A p \in 1..Len(rl[j]) :
-                 IsCell(rl[j][p]) => LET k == ColOfCell(i, CellOf(rl[j][p])) IN sp[k] < p /\ p < sp[k + 1]
+                 (IsCell(rl[j][p]) /\ CellOf(rl[j][p]) \in ci.set) =>
+                     \E k \in ci.cols[CellOf(rl[j][p])] : sp[k] < p /\ p < sp[k + 1]
 Aligned(i, L) == Bands(i, L) /\ Rules(i, L)
 
 \* ------------------------------------------------------------------ A => P, checked by TLC
@@ -267,10 +301,12 @@ WidthBudget == (pc \in {"draw", "done"} /\ Pre(inp)) => Sum(colLen) <= Avail(inp
 TypeOK == /\ pc \in {"classify", "distribute", "draw", "done", "fail", "skip"}
           /\ ties \in 0..6
 
-\* harness sanity: cell k's text consists of blanks and of characters numbered for cell k
+\* harness sanity: a cell's text consists of blanks and characters of one class; equal classes, equal texts
 WellFormed(i) ==
   /\ i.n >= 1 /\ NRows(i) >= 1 /\ Len(i.al) = i.n /\ i.style \in Styles
   /\ \A r \in 1..NRows(i) : Len(i.rows[r]) = i.n
-  /\ \A c \in 1..NCells(i) : \A p \in 1..Len(CellText(i, c)) :
-        CellText(i, c)[p] = SP \/ (CellOf(CellText(i, c)[p]) = c /\ CellText(i, c)[p] % 100 # 0)
+  /\ \A r \in 1..NRows(i), k \in 1..i.n : \A p \in 1..Len(i.rows[r][k]) :
+        i.rows[r][k][p] = SP \/ (CellOf(i.rows[r][k][p]) = ClassAt(i, r, k) /\ i.rows[r][k][p] % 100 # 0)
+  /\ \A r1, r2 \in 1..NRows(i), k1, k2 \in 1..i.n :
+        (ClassAt(i, r1, k1) # 0 /\ ClassAt(i, r1, k1) = ClassAt(i, r2, k2)) => RStrip(i.rows[r1][k1]) = RStrip(i.rows[r2][k2])
 =============================================================================
